@@ -1,7 +1,7 @@
 (** * C11 — The time axis is the uniform grid 0, dt, ..., T and never overruns T.  Statements only.
     (About the code as repaired by the "fix:" commits for findings D1 and D2: count-based grid.) *)
 From Coq Require Import ZArith QArith Reals Lra String List Bool PrimFloat.
-From GP Require Import ArithDef FloatUtil UnitsCore PyUnits RealArith QOps Motor Solver SolverProofs SolverRun Examples.
+From GP Require Import ArithDef FloatUtil UnitsCore PyUnits RealArith UnitsR QOps Motor Solver SolverProofs SolverRun GridR Examples.
 Import ListNotations. Open Scope nat_scope.
 
 (** generic in the arithmetic: a run without stop condition appends exactly the grid instants  t0 + k*dt, k = 1..n,
@@ -39,6 +39,14 @@ Proof.
   change (@add RA) with Rplus. change (@mul RA) with Rmult. rewrite E. split; [reflexivity|].
   assert (INR (S i) <= INR n)%R by (apply le_INR; exact Hi). nra.
 Qed.
+(** the grid of a run in SI, whatever the units of dt, T and of the previous final instant (over the reals): round(T/dt) instants,
+    the i-th one at  T0 + (i+1) dt  seconds, T0 = 0 for a fresh simulation and the previous final instant for a continued one *)
+Theorem C11_grid_SI : forall (dt T : qty RA) (last : option (qty RA)) t0 ts DT TT,
+  run_grid dt T last = Ok (t0, ts) -> qk dt = KTimeInterval -> si dt = Ok DT -> si T = Ok TT ->
+  forall T0, match last with Some tl => si tl = Ok T0 /\ qk tl = KTime | None => T0 = 0%R end ->
+  length ts = Z.to_nat (@round_half_even RA (TT / DT)%R) /\
+  forall i q, nth_error ts i = Some q -> si q = Ok (T0 + INR (S i) * DT)%R.
+Proof. exact run_grid_SI. Qed.
 Theorem C11_round_exact : forall n : Z, @round_half_even RA (IZR n) = n.
 Proof. exact Rround_IZR. Qed.
 
@@ -48,3 +56,4 @@ Proof. vm_compute. reflexivity. Qed.
 
 Print Assumptions C11_time_axis.
 Print Assumptions C11_real_grid.
+Print Assumptions C11_grid_SI.
